@@ -13,7 +13,8 @@ import pyobs
 KINDS = ['KMixed', 'KFloat', 'KInt']
 PATHS = ['WholeScalar', 'WholeSeq', 'CellInt', 'SliceScalar', 'SliceSeq', 'IndexList', 'Selection',
          'RowAttr', 'CtorKeyword', 'ConcatDM', 'ConcatDict', 'CsvRead', 'FromCol:KMixed', 'FromCol:KFloat',
-         'FromCol:KInt']
+         'FromCol:KInt', 'IndexListNp', 'SelectionNp', 'SliceNp', 'WholeNp', 'ConcatFromCol:KMixed',
+         'ConcatFromCol:KFloat', 'ConcatFromCol:KInt']
 
 
 def coltype(kind):
@@ -56,7 +57,7 @@ class C05:
     rule = ('every value of a fixed alphabet (ints around 0, +-2^31, +-2^53(+-1), 2^63-1; bools; floats incl. -0.0, '
             'nan, +-inf, subnormal, 1e22/1e23; numpy int8..int64/uint8/float32/float64 scalars; ~60 numeric and '
             'non-numeric string spellings incl. whitespace, underscores, non-ASCII digits; None; an unsupported object) '
-            'x 3 column types x 15 write paths (incl. assignment of a column of each type), exhaustively; thorough adds random ints/floats/strings. The cell is read '
+            'x 3 column types x 22 write paths (incl. assignment of a column of each type, NumPy-array values, and a column of a << b result), exhaustively; thorough adds random ints/floats/strings. The cell is read '
             'back through col[i], iteration and Row access (all three must agree and be plain int/float/str/None). '
             'non-trivial = the stored value differs from the assigned object or an exception is raised; distinct by '
             '(kind, path, value)')
@@ -133,6 +134,31 @@ class C05:
             except Exception:        # the source column itself rejects v: nothing to assign
                 return ('skip', None)
             dm.c[0:3] = dm.o
+        elif path in ('IndexListNp', 'SelectionNp', 'SliceNp', 'WholeNp'):
+            # the value arrives inside a NumPy array (float64 for floats, int64 for ints)
+            arr = np.array([0, v]) if path != 'WholeNp' else np.array([0, v, 0])
+            dm = fresh()
+            if path == 'IndexListNp':
+                dm.c[[2, 1]] = arr
+            elif path == 'SelectionNp':
+                dm.c[dm.k >= 1] = np.array([v, 0])
+            elif path == 'SliceNp':
+                dm.c[0:2] = arr
+            else:
+                dm.c = arr
+        elif path.startswith('ConcatFromCol:'):
+            # a table built by a << b (column c only in the left operand), then c[:] = a column of another type
+            a = DataMatrix(length=2)
+            a.c = ct
+            b = DataMatrix(length=1)
+            b.k = 1
+            dm = a << b
+            dm.o = coltype(path.split(':')[1])
+            try:
+                dm.o = [0, v, 0]
+            except Exception:
+                return ('skip', None)
+            dm.c[:] = dm.o
         elif path == 'CsvRead':
             fd, fn = tempfile.mkstemp(suffix='.csv', dir=self.tmpdir)
             with os.fdopen(fd, 'w', encoding='utf-8', newline='') as f:
@@ -155,6 +181,8 @@ class C05:
         return ('ok', (r1, r2, r3, r4))
 
     def applicable(self, kind, path, v):
+        if path.endswith('Np') and not (type(v) in (int, float) and abs(v) < 2 ** 63 if type(v) is int else type(v) is float):
+            return False
         if path == 'CsvRead' and not (type(v) is str and '\r' not in v and '\x00' not in v and v != ''):
             return False
         if kind == 'KInt':
@@ -205,10 +233,17 @@ class C05:
                 obs_lit = '(Ok %s)' % lits[0]
         pv = pyobs.pyv(v)
         trivial = out[0] == 'ok' and pyfail is None and pyobs.val(v) == pyobs.val(out[1][0])
-        if path.startswith('FromCol:'):
+        if path.endswith('Np'):
+            # an element of a float64 / int64 array
+            npv = np.array([0, v])[1]
+            pv = pyobs.pyv(npv)
+        if path.startswith('FromCol:') or path.startswith('ConcatFromCol:'):
             k2 = path.split(':')[1]
             o_expr = '(oracle_from %s %s %s %s)' % (kind, k2, pv, obs_lit)
             m_expr = '(model_agrees_from %s %s %s %s)' % (kind, k2, pv, obs_lit)
+        elif path.endswith('Np'):
+            o_expr = '(oracle %s %s %s)' % (kind, pv, obs_lit)
+            m_expr = '(model_agrees IndexList %s %s %s)' % (kind, pv, obs_lit)
         else:
             o_expr = '(oracle %s %s %s)' % (kind, pv, obs_lit)
             m_expr = '(model_agrees %s %s %s %s)' % (path, kind, pv, obs_lit)
